@@ -613,6 +613,8 @@ func callParse(b *Built, data any, dest reflect.Value, opts []z.ExecOption) any 
 		return s.Parse(data, d, opts...)
 	case *z.StringSchema[string]:
 		return s.Parse(data, d.(*string), opts...)
+	case *z.StringSchema[NamedStr]:
+		return s.Parse(data, d.(*NamedStr), opts...)
 	case *z.NumberSchema[int]:
 		return s.Parse(data, d.(*int), opts...)
 	case *z.NumberSchema[float64]:
@@ -651,6 +653,8 @@ func callValidate(b *Built, dest reflect.Value, opts []z.ExecOption) any {
 		return s.Validate(d, opts...)
 	case *z.StringSchema[string]:
 		return s.Validate(d.(*string), opts...)
+	case *z.StringSchema[NamedStr]:
+		return s.Validate(d.(*NamedStr), opts...)
 	case *z.NumberSchema[int]:
 		return s.Validate(d.(*int), opts...)
 	case *z.NumberSchema[float64]:
